@@ -7,5 +7,16 @@ import e2e_common as E
 def run(ctx):
     traces = ctx.e2e(E.plan(ctx, [("lossy", 10), ("clean", 4), ("tiny", 4), ("attack", 4)]))
     ctx.validate_families(traces, "Trace_PacketFlow", E.FLOW_KINDS)
+    # component level: the real AckManager (cfg-guarded re-export) under random histories in which transmission
+    # opportunities come with ANY remaining capacity, also too little for the ACK frame: while an ack-eliciting packet is
+    # owed an acknowledgement the manager wants to transmit or has its timer armed within max_ack_delay
+    hb = ctx.build("h-quic")
+    tf = os.path.join(ctx.out, "ackmgr.ndjson")
+    r = ctx.harness(hb, ["ackmgr-run", ctx.seed, 500 if ctx.quick else 8000, tf])
+    ctx.cov["stages"].append({"stage": "record", "what": "AckManager component histories", **{k: v for k, v in r.items() if not k.startswith("_")}})
+    import C18
+    for i, p in enumerate(C18.split(tf, 40000)):
+        ctx.trace("Trace_AckDuty", p, runs=r["runs"], label="ackmgr-%d" % i, timeout=1500)
+    ctx.count(r["events"])
     ctx.assume("promptness: an ack-eliciting application-space packet must be covered by an ACK frame in a packet SENT within max_ack_delay + 5 ms while the endpoint is not closing; named deviations: capacity-bounded ACK ranges (below the lowest of a full frame), RFC 9000 13.2.4 (packets <= Largest Acknowledged of an acknowledged ACK), known finding F8 (pacing)")
     ctx.assume("packet number reconstruction is checked indirectly: a genuine packet that reaches processing carries exactly the sender's packet number and cleartext (a reconstruction error makes decryption fail and the packet never reaches processing, which shows as missing ACK coverage / retransmissions only)")
